@@ -10,7 +10,7 @@ import YaegiVerif.Proofs.C06Dom
          | (deferdel t) | (deferpanic VAL) | (probe t) | (panic VAL) | (recover show) | (recoveris VAL) | (repanic)
          | (setres n) | (setouter n)
    ARG   = (lit n) | param | res
-   VAL   = (str s) | (int n) | (err s) | (fault kind)
+   VAL   = (str s) | (int n) | (err s) | (fault kind) | (nil ptr|map|slice|func|chan)
    outcome = <status>~<reusable>~<line>|<line>|…   (spaces inside a line are written `_`)
    status  = ok | panic:<printed value>:<dynamic type the host sees> | panic:? | crash | hang | fuel -/
 namespace YaegiVerif.Driver.C06
@@ -30,6 +30,11 @@ def parseVal : Sexp → Option Val
   | .list [.atom "int", n] => n.int?.map .int
   | .list [.atom "err", .atom s] => some (.err s)
   | .list [.atom "fault", .atom k] => (parseFault k).map .fault
+  | .list [.atom "nil", .atom "ptr"] => some (.tnil .ptr)
+  | .list [.atom "nil", .atom "map"] => some (.tnil .map)
+  | .list [.atom "nil", .atom "slice"] => some (.tnil .slice)
+  | .list [.atom "nil", .atom "func"] => some (.tnil .func)
+  | .list [.atom "nil", .atom "chan"] => some (.tnil .chan)
   | _ => none
 
 def parseArg : Sexp → Option Arg
@@ -96,8 +101,17 @@ end
 
 /-- how fmt prints the value. `re v` is a reflect.Value holding v: fmt prints what it holds; a reflect.Value held
     by a reflect.Value prints through Value.String() (`<T Value>` unless it holds a string) -/
+def showNil : NilKind → String
+  | .map => "map[]" | .slice => "[]" | _ => "<nil>"
+
 def showVal : Val → String
   | .str s => s | .int n => toString n | .err s => s | .fault k => "fault:" ++ showFault k
+  | .tnil k => showNil k | .re (.tnil k) => showNil k
+  | .re (.re (.tnil .map)) => "<map[string]int_Value>"
+  | .re (.re (.tnil .slice)) => "<[]string_Value>"
+  | .re (.re (.tnil .ptr)) => "<*int_Value>"
+  | .re (.re (.tnil .func)) => "<func()_Value>"
+  | .re (.re (.tnil .chan)) => "<chan_int_Value>"
   | .re (.str s) => s | .re (.int n) => toString n | .re (.err s) => s | .re (.fault k) => "fault:" ++ showFault k
   | .re (.re (.str s)) => s
   | .re (.re (.int _)) => "<int_Value>"
@@ -108,6 +122,8 @@ def showVal : Val → String
 /-- the dynamic type of interp.Panic.Value as the host sees it (run-time faults: not modelled, F06-5) -/
 def typeTag : Val → String
   | .str _ => "string" | .int _ => "int" | .err _ => "error" | .fault _ => "fault"
+  | .tnil .ptr => "*int" | .tnil .map => "map[string]int" | .tnil .slice => "[]string" | .tnil .func => "func()"
+  | .tnil .chan => "chan_int"
   | .re (.fault _) => "fault"       -- printed as a fault: the harness observes faults as kinds only
   | .re _ => "reflect.Value"
 
@@ -115,8 +131,8 @@ def showEvent : Event → String
   | .print s => s
   | .arg n => "a_" ++ toString n
   | .ret n => "ret_" ++ toString n
-  | .recd none => "rec_<nil>"
-  | .recd (some v) => "rec_" ++ showVal v
+  | .recd none => "rec_<nil>|<nil>"                               -- fmt.Printf("rec %v |%T\n", x, x)
+  | .recd (some v) => "rec_" ++ showVal v ++ "|" ++ typeTag v
   | .bin s n => s ++ "_" ++ toString n
   | .probe t p => "probe_" ++ toString t ++ "_" ++ toString p
   | .recIs b => "is_" ++ toString b
